@@ -46,6 +46,8 @@ func main() {
 		code = scenarioAffinity()
 	case "hostile":
 		code = scenarioHostile()
+	case "stress":
+		code = scenarioStress()
 	case "pintime":
 		code = scenarioPinTime()
 	default:
